@@ -81,7 +81,11 @@ class Mnemonic(object):
         words = self.sanitize_mnemonic(words)
         # Check if passphrase is valid
         if validate:
-            self.to_entropy(words)
+            # Validate with the wordlist of this instance, or of the detected language if the words are not in it
+            mnemo = self
+            if [w for w in words.split(' ') if w not in self._wordlist]:
+                mnemo = Mnemonic(self.detect_language(words))
+            mnemo.to_entropy(words)
         mnemonic = bytes(words, 'utf8')
         password = bytes(normalize_string(password), 'utf8')
         return hashlib.pbkdf2_hmac(hash_name='sha512', password=mnemonic, salt=b'mnemonic' + password,
